@@ -8,13 +8,10 @@ CLAIMS = {}
 def claim(pid, technique, text, note, design_ref, category="proof"):
     CLAIMS[pid] = dict(technique=technique, text=text, note=note, design_ref=design_ref, category=category)
 
-NA = {
- "C15": "timeline! is a syn parser + quote! emitter running inside rustc on proc_macro types; neither Verus nor Kani can load proc_macro/syn, and 'the emitted tokens, once compiled, behave as the builder chain' is not a postcondition over values either tool represents (DESIGN.md section 5, C15). Comparing expansions for chosen sentences would be translation validation, a different family.",
- "C16": "animator! is a syn parser + quote! emitter (same reason as C15); its behavioural half is carried by C04/C05 for whatever animator the builder produces.",
-}
+NA = {}
 
 exec(open(os.path.join(VERIF, "tools", "manifest_claims.py")).read())
-for _p in ("C11", "C12", "C17"):
+for _p in ("C11", "C12", "C15", "C16", "C17"):
     if _p in CLAIMS:
         CLAIMS[_p]["category"] = "other"
 
